@@ -7,6 +7,7 @@ mod evjson;
 mod pure;
 mod universe;
 mod writers;
+mod zoo;
 
 use std::{
     env, fs,
@@ -177,6 +178,15 @@ fn main() {
                 let r = pure::outline_vector(&l, &tmp);
                 rec["actual"] = r["actual"].clone();
                 rec["text"] = r["text"].clone();
+                writeln!(out, "{rec}").unwrap();
+            }
+        }
+        "zoo" => {
+            let lines = read_ndjson(&args[1]);
+            let mut out = fs::File::create(&args[2]).unwrap();
+            for l in lines {
+                let mut rec = l.clone();
+                rec["results"] = zoo::dispatch(&l)["results"].clone();
                 writeln!(out, "{rec}").unwrap();
             }
         }
